@@ -175,6 +175,18 @@ structure Index where
   checks : Nat
   deriving Repr, Inhabited
 
+/-- `g->records[g->last]` of the last group of the Stream; (0, 0) when the Stream has no group (`g == NULL`) -/
+def Stream.lastSums (s : Stream) : Rec :=
+  match s.groups.root.rightmost? with
+  | none => ⟨0, 0⟩
+  | some g => g.lastRec
+
+/-- `g != NULL && g->last + 1 < g->allocated` -/
+def Stream.hasRoom (s : Stream) : Bool :=
+  match s.groups.root.rightmost? with
+  | none => false
+  | some g => g.records.size < g.allocated
+
 /-- `index_stream_init` -/
 def streamInit (compressedBase uncompressedBase number blockNumberBase : Nat) : Stream :=
   { uncompressedBase, compressedBase, number, blockNumberBase, groups := .empty, recordCount := 0,
@@ -207,9 +219,7 @@ def paddingSize (i : Index) : Nat := indexPadding i.recordCount i.indexListSize
 def fileSize (i : Index) : Nat :=
   match i.streams.root.rightmost? with
   | none => VLI_UNKNOWN
-  | some s =>
-    let us := match s.groups.root.rightmost? with | none => 0 | some g => g.lastRec.unpaddedSum
-    indexFileSize s.compressedBase us s.recordCount s.indexListSize s.padding
+  | some s => indexFileSize s.compressedBase s.lastSums.unpaddedSum s.recordCount s.indexListSize s.padding
 
 /-- `lzma_index_checks`: the stored mask plus the bit of the last Stream -/
 def checks (i : Index) : Nat :=
@@ -248,9 +258,9 @@ def append (i : Index) (unpadded uncompressed : Nat) : Ret × Index :=
     match i.streams.root.rightmost? with
     | none => (.progError, i)
     | some s =>
-      let g? := s.groups.root.rightmost?
-      let compressedBase := match g? with | none => 0 | some g => vliCeil4 g.lastRec.unpaddedSum
-      let uncompressedBase := match g? with | none => 0 | some g => g.lastRec.uncompressedSum
+      -- g == NULL ? 0 : vli_ceil4(g->records[g->last].unpadded_sum)   (vli_ceil4(0) = 0)
+      let compressedBase := vliCeil4 s.lastSums.unpaddedSum
+      let uncompressedBase := s.lastSums.uncompressedSum
       let add := vliSize unpadded + vliSize uncompressed
       if uncompressedBase + uncompressed > VLI_MAX ∨ i.uncompressedSize + uncompressed > VLI_MAX then (.dataError, i)
       else if compressedBase + unpadded > UNPADDED_SIZE_MAX then (.dataError, i)
@@ -259,11 +269,10 @@ def append (i : Index) (unpadded uncompressed : Nat) : Ret × Index :=
       else if indexSize (i.recordCount + 1) (i.indexListSize + add) > BACKWARD_SIZE_MAX then (.dataError, i)
       else
         let r : Rec := ⟨uncompressedBase + uncompressed, compressedBase + unpadded⟩
-        let room := match g? with | none => false | some g => g.records.size < g.allocated
         let totals (i : Index) : Index :=
           { i with totalSize := i.totalSize + vliCeil4 unpadded, uncompressedSize := i.uncompressedSize + uncompressed,
                    recordCount := i.recordCount + 1, indexListSize := i.indexListSize + add }
-        if room then
+        if s.hasRoom then
           (.ok, totals (setLastStream i fun s =>
             { s with groups := ⟨s.groups.root.modifyRightmost fun g => { g with records := g.records.push r }, s.groups.count⟩,
                      recordCount := s.recordCount + 1, indexListSize := s.indexListSize + add }))
